@@ -2,7 +2,7 @@ package peers
 
 // C17, concurrent tier: 4-12 goroutines run generated operation lists against one pool / one
 // Manager with real timers and a cool-down of 100-500 µs. Schedules are sampled, not enumerated.
-// Oracles: progress watchdog (no operation completes for c17HangBound while operations are
+// Oracles: progress watchdog (no operation completes for c17Bound() while operations are
 // outstanding => goroutine dump + VERIF-VIOLATION), afterwards the pools' counters equal a
 // recount of their statuses, no peer is stuck on cool-down, no goroutine is left, and
 // happens-before checks on what was handed out (a peer whose removal / blacklisting had
@@ -106,7 +106,7 @@ func c17PlanString(head string, plan [][]c17Op) string {
 }
 
 func c17Reps() int {
-	if os.Getenv("VERIF_REPLAY_FILE") != "" {
+	if strings.HasSuffix(os.Getenv("VERIF_REPLAY_FILE"), ".fail") {
 		return 50 // a schedule-dependent failure is replayed by running its plan many times
 	}
 	return 1
@@ -131,7 +131,7 @@ func c17WriteReplay(name, verdict, plan string, recs []c17Rec) string {
 // c17Drain waits until no peer of the pool is on cool-down any more (every cool-down of the run
 // lasts at most ttl) and returns the peers that still are after the liveness bound.
 func c17Drain(p *pool) []string {
-	deadline := time.Now().Add(c17HangBound)
+	deadline := time.Now().Add(c17Bound())
 	for {
 		var stuck []string
 		p.m.RLock()
@@ -331,11 +331,11 @@ func TestVerifC17_PoolConcurrent(t *testing.T) {
 				rt.Fatalf("%s\n(plan and history: %s)\nplan:\n%s", verdict, file, c17Trunc(desc, 4000))
 			}
 			if n := c17WaitNoGoroutine("peers.(*pool).next.func1"); n > 0 {
-				fail("C17/cancellation-honoured: %d goroutine(s) of pool.next alive %s after their contexts expired", n, c17HangBound)
+				fail("C17/cancellation-honoured: %d goroutine(s) of pool.next alive %s after their contexts expired", n, c17Bound())
 			}
 			if stuck := c17Drain(p); len(stuck) > 0 {
 				fail("C17/cooldown-expiry: %v still on cool-down %s after the last operation (cool-down %s, queue length %d): they are never offered again",
-					stuck, c17HangBound, ttl, p.cooldown.len())
+					stuck, c17Bound(), ttl, p.cooldown.len())
 			}
 			if err := c17PoolConsistency(p); err != nil {
 				fail("C17/pool-counts: after the run: %v", err)
@@ -582,7 +582,7 @@ func TestVerifC17_ManagerConcurrent(t *testing.T) {
 			}
 			for _, fn := range []string{"peers.(*pool).next.func1", "peers.(*Manager).Peer"} {
 				if n := c17WaitNoGoroutine(fn); n > 0 {
-					fail("C17/cancellation-honoured: %d goroutine(s) in %s alive %s after every request context expired", n, fn, c17HangBound)
+					fail("C17/cancellation-honoured: %d goroutine(s) in %s alive %s after every request context expired", n, fn, c17Bound())
 				}
 			}
 			pools := map[string]*pool{"general pool": mr.env.mgr.nodes}
@@ -601,7 +601,7 @@ func TestVerifC17_ManagerConcurrent(t *testing.T) {
 			for _, n := range names {
 				if stuck := c17Drain(pools[n]); len(stuck) > 0 {
 					fail("C17/cooldown-expiry: %s: %v still on cool-down %s after the last operation (cool-down %s): they are never offered again",
-						n, stuck, c17HangBound, params.PeerCooldown)
+						n, stuck, c17Bound(), params.PeerCooldown)
 				}
 				if err := c17PoolConsistency(pools[n]); err != nil {
 					fail("C17/pool-counts: %s after the run: %v", n, err)
@@ -686,17 +686,18 @@ func TestVerifC17_ConfirmationRace(t *testing.T) {
 					for k := 0; k < i*stagger; k++ {
 						runtime.Gosched()
 					}
-					wd.begin()
+					// no watchdog bracket: the bounded wait below judges these requests itself
 					id, done, err := env.mgr.Peer(ctx, hash, 5)
-					wd.end()
 					res <- c17PeerRes{id, done, err}
 				}()
 			}
 			close(startCh)
 			if withHeader {
+				wd.begin()
 				env.header(hash, 5)
+				wd.end()
 			}
-			tm := time.NewTimer(c17HangBound)
+			tm := time.NewTimer(c17Bound())
 			for i := 0; i < nReq; i++ {
 				select {
 				case r := <-res:
@@ -714,7 +715,7 @@ func TestVerifC17_ConfirmationRace(t *testing.T) {
 					cancel()
 					c17ShrinkBound()
 					rt.Fatalf("C17/request-returns: %d of %d concurrent Peer requests for a hash with %d eligible announcer(s) still wait after %s; announcers now: %v\ncase: %s",
-						nReq-i, nReq, nAnn, c17HangBound, where, desc)
+						nReq-i, nReq, nAnn, c17Bound(), where, desc)
 				}
 			}
 			tm.Stop()
